@@ -42,11 +42,7 @@ Inductive comb :=
 | CFlatten
 | CFanout
 | CUnzip
-| CDemux
-(* the same three after the finalize-once fix *)
-| CFanoutF
-| CUnzipF
-| CDemuxF.
+| CDemux.
 
 (* ------------------------------------------------------------------ item decoding *)
 
@@ -80,15 +76,12 @@ Definition run_case (c : comb) (fuel : nat) (items : list (list N)) (dn : list s
                      fuel (map it_n items)
   | CFlatMap g => run1 (flat_map_push R (gev g)) (None, d0) (fun s => [lg (snd s)]) fuel (map it_n items)
   | CFlatten => run1 (flatten_push R) (None, d0) (fun s => [lg (snd s)]) fuel items
-  | CFanout => run1 (fanout_push R R) (d0, d1) (fun s => [lg (fst s); lg (snd s)]) fuel (map it_n items)
-  | CUnzip => run1 (unzip_push R R) (d0, d1) (fun s => [lg (fst s); lg (snd s)]) fuel (map it_pair items)
-  | CDemux => run1 (demux_push R) (map (@ds0 N) dn) (fun s => map (@lg N) s) fuel (map it_idx items)
-  | CFanoutF => run1 (fanout_once_push R R) ((false, false), (d0, d1))
-                     (fun s => [lg (fst (snd s)); lg (snd (snd s))]) fuel (map it_n items)
-  | CUnzipF => run1 (unzip_once_push R R) ((false, false), (d0, d1))
-                    (fun s => [lg (fst (snd s)); lg (snd (snd s))]) fuel (map it_pair items)
-  | CDemuxF => run1 (demux_once_push R) ([], map (@ds0 N) dn) (fun s => map (@lg N) (snd s)) fuel
-                    (map it_idx items)
+  | CFanout => run1 (fanout_push R R) ((false, false), (d0, d1))
+                    (fun s => [lg (fst (snd s)); lg (snd (snd s))]) fuel (map it_n items)
+  | CUnzip => run1 (unzip_push R R) ((false, false), (d0, d1))
+                   (fun s => [lg (fst (snd s)); lg (snd (snd s))]) fuel (map it_pair items)
+  | CDemux => run1 (demux_push R) ([], map (@ds0 N) dn) (fun s => map (@lg N) (snd s)) fuel
+                   (map it_idx items)
   end.
 
 (* ------------------------------------------------------------------ reference semantics *)
@@ -108,15 +101,15 @@ Definition ref_items (c : comb) (items : list (list N)) (i : nat) : list N :=
   | CInspect => map it_n items
   | CFlatMap g => flat_map (gev g) (map it_n items)
   | CFlatten => concat items
-  | CFanout | CFanoutF => map it_n items
-  | CUnzip | CUnzipF => if Nat.eqb i 0 then map fst (map it_pair items) else map snd (map it_pair items)
-  | CDemux | CDemuxF => demux_ref i (map it_idx items)
+  | CFanout => map it_n items
+  | CUnzip => if Nat.eqb i 0 then map fst (map it_pair items) else map snd (map it_pair items)
+  | CDemux => demux_ref i (map it_idx items)
   end.
 
 Definition n_down (c : comb) (dn : list script) : nat :=
   match c with
-  | CFanout | CUnzip | CFanoutF | CUnzipF => 2
-  | CDemux | CDemuxF => length dn
+  | CFanout | CUnzip => 2
+  | CDemux => length dn
   | CInspect => 2   (* second "log" is the closure's record of inspected items *)
   | _ => 1
   end.
@@ -124,7 +117,7 @@ Definition n_down (c : comb) (dn : list script) : nat :=
 (* inputs outside the property's quantifier: a demux index with no downstream (the code panics) *)
 Definition in_scope (c : comb) (items : list (list N)) (dn : list script) : bool :=
   match c with
-  | CDemux | CDemuxF => forallb (fun i => Nat.ltb (fst (it_idx i)) (length dn)) items
+  | CDemux => forallb (fun i => Nat.ltb (fst (it_idx i)) (length dn)) items
   | _ => true
   end.
 
